@@ -9,7 +9,7 @@ use std::{
     ops::Not,
     sync::{
         Arc,
-        atomic::{AtomicUsize, Ordering},
+        atomic::{AtomicU64, AtomicUsize, Ordering},
     },
 };
 
@@ -85,6 +85,10 @@ enum Entry<C> {
 pub struct VersionedOperation<V> {
     op: Operation<V>,
     epoch: Epoch,
+
+    /// Position of the operation in the order it was issued on its log; used
+    /// to order operations that belong to the same epoch.
+    seq: u64,
 }
 
 impl<V> Eq for VersionedOperation<V> {}
@@ -120,6 +124,7 @@ enum ConcurrentLogMessage<V> {
 struct ConcurrentLog<V> {
     log: RwLock<BinaryHeap<VersionedOperation<V>>>,
     deferred_messages: SegQueue<ConcurrentLogMessage<V>>,
+    next_seq: AtomicU64,
 }
 
 impl<V: Eq + Hash + Clone> ConcurrentLog<V> {
@@ -127,8 +132,11 @@ impl<V: Eq + Hash + Clone> ConcurrentLog<V> {
         Self {
             log: RwLock::new(BinaryHeap::new()),
             deferred_messages: SegQueue::new(),
+            next_seq: AtomicU64::new(0),
         }
     }
+
+    fn next_seq(&self) -> u64 { self.next_seq.fetch_add(1, Ordering::SeqCst) }
 
     fn apply_message(&self, op: ConcurrentLogMessage<V>) {
         let Some(mut lock) = self.log.try_write() else {
@@ -180,17 +188,23 @@ impl<V: Eq + Hash + Clone> ConcurrentLog<V> {
         let mut added = HashSet::with_hasher(FxBuildHasher::default());
         let mut removed = HashSet::with_hasher(FxBuildHasher::default());
 
-        for op in log.iter() {
+        // Replay the staged operations oldest first (the heap iterates in
+        // arbitrary order). The last operation on an element decides whether
+        // it is added or removed on top of what the database returns; an
+        // earlier operation must not cancel it out, since the element may or
+        // may not be in the database already.
+        let mut ops = log.iter().collect::<Vec<_>>();
+        ops.sort_unstable_by_key(|op| (op.epoch, op.seq));
+
+        for op in ops {
             match &op.op {
                 Operation::Insert(v) => {
-                    if removed.remove(v).not() {
-                        added.insert(v.clone());
-                    }
+                    removed.remove(v);
+                    added.insert(v.clone());
                 }
                 Operation::Remove(v) => {
-                    if added.remove(v).not() {
-                        removed.insert(v.clone());
-                    }
+                    added.remove(v);
+                    removed.insert(v.clone());
                 }
             }
         }
@@ -533,8 +547,10 @@ impl<
 
         // apply the operation to the log
         {
+            let seq = log.next_seq();
+
             log.apply_message(ConcurrentLogMessage::AppendOperation(
-                VersionedOperation { op: op.clone(), epoch },
+                VersionedOperation { op: op.clone(), epoch, seq },
             ));
         }
 
